@@ -5,7 +5,8 @@
 EXTENDS Reduction, Json
 
 OldKinds == {"alias", "palias", "const", "sum", "inc", "lag", "exo", "time"}
-NewKinds == {"neg", "negs", "negb", "sq", "nsq", "dbl", "diff", "prod", "quo"}
+NewKinds == {"neg", "negs", "negb", "sq", "nsq", "dbl", "diff", "prod", "quo", "self"}
+PlainKinds == OldKinds \cup {"self"}     \* slice A: the kinds without sign / power / product, + reads-itself
 Spellings == {"negs", "negb"}            \* only offered for the first variable
 AllKinds == OldKinds \cup NewKinds
 BothICs  == {NoIC, 3}
@@ -26,18 +27,21 @@ NumICs(c)  == Cardinality({ x \in DOMAIN c : c[x] # NoIC })
 
 (* quick: every system over 1 and 2 variables (all kinds); of the 3-variable systems two slices, *)
 (* the third variable carrying no initial condition:                                             *)
-(*   A  first two variables of the kinds without sign / power / product, third  u + 1  or a lag  *)
+(*   A  first two variables of the kinds without sign / power / product (incl. a variable that    *)
+(*      reads itself, x = 0.5*x + v), third  u + 1  or a lag: a self-reference with no other      *)
+(*      reader, with another reader, with its own lag as reader                                   *)
 (*   B  first variable a (negated / plain / plus-) alias, second a base (constant, lag, path,    *)
-(*      time) or again an alias / negation, third a USE: u**2, -u**2, 2*u, u - v, -u, u * v,     *)
+(*      time) or again an alias / negation (no initial condition), third a USE: u**2, -u**2, 2*u, u - v, -u, u * v,     *)
 (*      u / v (base of a power, after a unary minus, in a product, as divisor)                   *)
 (*      -> contains every pair (negated alias, square of it)                                     *)
 MC_LineQuick(i, d, ic, a, c) ==
     \/ i <= 2
     \/ /\ i = 3 /\ ic = NoIC
-       /\ \/ d.kind \in {"inc", "lag"} /\ KindsOf(a) \subseteq OldKinds
+       /\ \/ d.kind \in {"inc", "lag"} /\ KindsOf(a) \subseteq PlainKinds
           \/ /\ d.kind \in NewKinds
              /\ a[Vars[1]].kind \in {"neg", "negs", "negb", "alias", "palias"}
              /\ a[Vars[2]].kind \in {"const", "lag", "exo", "time", "neg", "alias"}
+             /\ c[Vars[2]] = NoIC
 
 (* thorough: every system over 3 variables of the kinds of slice A (any initial conditions) and   *)
 (* every system over 3 variables of all kinds with at most one initial condition                  *)
